@@ -1052,6 +1052,14 @@ class GeoMachine(Machine):
         if len(geo.columnlist) < 2:
             return False
         cols = self.pick_cols(ch[0] % max(1, len(geo.columnlist) - 1), ch[1])
+        if ch[3] % 4 == 3:
+            # keep everything but one interior column (a hole: nothing for check() to repair)
+            bn = set(n.name for n in geo.boundary_nodes)
+            inner = [c for c in geo.columnlist if not any(n.name in bn for n in c.node)]
+            if inner:
+                hole = inner[ch[0] % len(inner)]
+                cols = [c for c in geo.columnlist if c is not hole]
+                self.ctx.probes['reduce_to_all_but_one_interior_column'] += 1
         arg = [c.name for c in cols] if ch[2] % 2 else cols
         self.call(lambda: geo.reduce(arg), 'reduce')
 
